@@ -77,7 +77,12 @@ func (l *listener) Listen(ctx context.Context, onMessage func(msg message) error
 
 		return nil
 	})
-	defer func() { _ = eg.Wait() }()
+	defer func() {
+		// Stop the interrupt goroutine before waiting for it, otherwise an error
+		// which was not caused by ctx cancelation would block here forever.
+		cancel()
+		_ = eg.Wait()
+	}()
 
 	for {
 		// Receive and pass incoming NDP messages to the caller.
